@@ -14,6 +14,15 @@
 //!  (c) assets with a BMFF Merkle tree over two mdat boxes are read 24 times in-process and 2 x 12 times in child
 //!      processes: all verdicts must be equal. These assets are excluded from (a) by construction (class of the
 //!      asset, not observed behaviour) so that the verdict of a case does not depend on chance.
+//!  (d) stream `trust_histories`: 2-5 operations on ONE fresh thread (context read / add ingredient + sign / sign of
+//!      pool assets), each with its own trust settings (anchors, user anchors, trust config, allowed list with the
+//!      signer's end-entity certificate / other certificates / hash form): every operation's outcome equals the
+//!      outcome of the same operation executed alone on a fresh thread;
+//!  (e) stream `legacy_histories`: 2-6 operations on ONE fresh thread mixing deprecated thread-local settings loads
+//!      that succeed and that are rejected (10 ways, each combined with harmless keys that would be visible if
+//!      merged) with deprecated reads / signs: a rejected load leaves `Settings::to_toml()` byte-identical, every
+//!      later load / read / sign equals the one on a thread that never attempted the rejected loads (same
+//!      successful loads), and a closing valid load succeeds.
 
 use std::{
     collections::{BTreeMap, HashMap},
@@ -1076,6 +1085,785 @@ fn case_strategy() -> impl Strategy<Value = Case> {
         .prop_map(|(ops, (src, binding, alg, def, kind))| Case { ops, probe: Probe { src: Src { two_mdat: false, ..src }, binding, alg, def, kind } })
 }
 
+// ------------------------------------------------------------------------------------------------
+// per-thread histories (streams "trust_histories" and "legacy_histories")
+//
+// Oracle of both streams: an operation's result equals the result of the same operation in a pristine thread.
+// Every history, every reference run and every read-back observation runs on its own freshly spawned thread.
+// ------------------------------------------------------------------------------------------------
+
+/// Run `f` on a freshly spawned thread (pristine thread-locals); panics are caught and returned as text.
+fn fresh<T: Send>(f: impl FnOnce() -> T + Send) -> Result<T, String> {
+    std::thread::scope(|s| {
+        let h = std::thread::Builder::new().name("c38-fresh".into()).stack_size(8 << 20).spawn_scoped(s, || vh::catch(f));
+        match h.map(|h| h.join()) {
+            Ok(Ok(r)) => r,
+            Ok(Err(_)) => Err("fresh thread died".into()),
+            Err(e) => Err(format!("fresh thread could not be spawned: {e}")),
+        }
+    })
+}
+
+const POOL_ALGS: [&str; 3] = ["ed25519", "es256", "ps256"];
+
+struct Pool {
+    /// (format, bytes, description); 0..3 signed here with POOL_ALGS[i], 3 = fixture C.jpg (foreign signer)
+    assets: Vec<(String, Vec<u8>, String)>,
+    /// PEM of the end-entity certificate of POOL_ALGS[i]
+    ee_pem: Vec<String>,
+    /// base64(sha256(DER)) of the end-entity certificate of POOL_ALGS[0] (hash form of an allowed list)
+    ee0_hash: String,
+    anchors_full: String,
+    anchors_half: String,
+    store_cfg: String,
+    fixture_allowed: String,
+}
+
+fn pem_blocks(txt: &str) -> Vec<String> {
+    let mut out = vec![];
+    let mut cur = String::new();
+    let mut inside = false;
+    for l in txt.lines() {
+        if l.contains("-----BEGIN CERTIFICATE-----") {
+            inside = true;
+            cur.clear();
+        }
+        if inside {
+            cur.push_str(l.trim_end());
+            cur.push('\n');
+        }
+        if l.contains("-----END CERTIFICATE-----") && inside {
+            inside = false;
+            out.push(cur.clone());
+        }
+    }
+    out
+}
+
+static POOL: std::sync::OnceLock<Result<Pool, String>> = std::sync::OnceLock::new();
+
+fn pool() -> Result<&'static Pool, String> {
+    POOL.get_or_init(|| {
+        fresh(|| -> Result<Pool, String> {
+            let (fmt, src) = source(&Src { kind: 0, inst: 0, two_mdat: false });
+            let mut assets = vec![];
+            let mut ee_pem = vec![];
+            for alg in POOL_ALGS {
+                let signer = sdk::signer(alg);
+                let b = sdk::sign_with(sdk::context(), &sdk::simple_definition(&format!("c38 pool {alg}")), Some(BuilderIntent::Create(DigitalSourceType::Empty)), signer.as_ref(), &fmt, &src)
+                    .map_err(|e| format!("pool signing with {alg}: {e}"))?;
+                assets.push((fmt.clone(), b, format!("pool:{alg}")));
+                let chain = String::from_utf8_lossy(&sdk::credential(alg).0).to_string();
+                ee_pem.push(pem_blocks(&chain).into_iter().next().ok_or("no certificate in fixture chain")?);
+            }
+            assets.push(("image/jpeg".into(), sdk::fixture("C.jpg"), "fixture:C.jpg".into()));
+            let der = openssl::x509::X509::from_pem(ee_pem[0].as_bytes()).and_then(|c| c.to_der()).map_err(|e| format!("EE certificate: {e}"))?;
+            let ee0_hash = openssl::base64::encode_block(&openssl::sha::sha256(&der));
+            let anchors_full = sdk::test_anchors();
+            let roots = pem_blocks(&anchors_full);
+            let anchors_half = roots[..roots.len() / 2].concat();
+            Ok(Pool {
+                assets,
+                ee_pem,
+                ee0_hash,
+                anchors_full,
+                anchors_half,
+                store_cfg: String::from_utf8_lossy(&sdk::fixture("certs/trust/store.cfg")).to_string(),
+                fixture_allowed: String::from_utf8_lossy(&sdk::fixture("certs/trust/allowed_list.pem")).to_string(),
+            })
+        })
+        .unwrap_or_else(Err)
+    })
+    .as_ref()
+    .map_err(|e| e.clone())
+}
+
+// ---------------------------------------------------------------- stream A: trust settings per operation
+
+#[derive(Clone, Debug, Serialize, Deserialize, PartialEq, Eq, Hash)]
+struct TrustCtx {
+    /// 0 none, 1 fixture root bundle, 2 first half of the bundle
+    anchors: u8,
+    /// same coding, as `trust.user_anchors`
+    user: u8,
+    /// 0 none, 1 fixture store.cfg, 2 documentSigning only
+    config: u8,
+    /// 0 none, 1..=3 end-entity certificate of pool signer i-1, 4 fixture allowed_list.pem (other certificates),
+    /// 5 all three pool signers, 6 hash form (base64 SHA-256 of the DER) of pool signer 0
+    allowed: u8,
+}
+
+impl TrustCtx {
+    fn key(&self) -> (u8, u8, u8) {
+        (self.anchors % 3, self.user % 3, self.config % 3)
+    }
+    /// pool signers whose end-entity certificate is on this context's allowed list
+    fn members(&self) -> Vec<u8> {
+        match self.allowed % 7 {
+            a @ 1..=3 => vec![a - 1],
+            5 => vec![0, 1, 2],
+            6 => vec![0],
+            _ => vec![],
+        }
+    }
+}
+
+#[derive(Clone, Debug, Serialize, Deserialize, PartialEq, Eq, Hash)]
+enum TOp {
+    Read { asset: u8, ctx: TrustCtx },
+    /// add_ingredient_from_stream of a pool asset + sign, all with `ctx`
+    Ingredient { asset: u8, ctx: TrustCtx, rel: u8 },
+    /// Builder::sign with pool signer `alg` under `ctx`
+    Sign { alg: u8, ctx: TrustCtx },
+}
+
+impl TOp {
+    fn ctx(&self) -> &TrustCtx {
+        match self {
+            TOp::Read { ctx, .. } | TOp::Ingredient { ctx, .. } | TOp::Sign { ctx, .. } => ctx,
+        }
+    }
+    fn kind(&self) -> &'static str {
+        match self {
+            TOp::Read { .. } => "read",
+            TOp::Ingredient { .. } => "ingredient",
+            TOp::Sign { .. } => "sign",
+        }
+    }
+    /// pool signer of the asset whose credential this operation validates (None: foreign fixture / nothing read)
+    fn validated_signer(&self) -> Option<u8> {
+        match self {
+            TOp::Read { asset, .. } | TOp::Ingredient { asset, .. } => {
+                let a = asset % 4;
+                (a < 3).then_some(a)
+            }
+            TOp::Sign { alg, .. } => Some(alg % 3),
+        }
+    }
+}
+
+#[derive(Clone, Debug, Serialize, Deserialize, PartialEq, Eq, Hash)]
+struct TrustCase {
+    ops: Vec<TOp>,
+}
+
+/// Settings of one operation; `leaked` (self-test only) = pool signers whose certificates are added to the allowed list.
+fn trust_settings(p: &Pool, c: &TrustCtx, leaked: &[u8]) -> Value {
+    let mut st = sdk::base_settings(false);
+    let bundle = |i: u8| match i % 3 {
+        1 => Some(p.anchors_full.clone()),
+        2 => Some(p.anchors_half.clone()),
+        _ => None,
+    };
+    let mut trust = serde_json::Map::new();
+    if let Some(b) = bundle(c.anchors) {
+        trust.insert("trust_anchors".into(), json!(b));
+    }
+    if let Some(b) = bundle(c.user) {
+        trust.insert("user_anchors".into(), json!(b));
+    }
+    match c.config % 3 {
+        1 => {
+            trust.insert("trust_config".into(), json!(p.store_cfg));
+        }
+        2 => {
+            trust.insert("trust_config".into(), json!("//id-kp-documentSigning\n1.3.6.1.5.5.7.3.36\n"));
+        }
+        _ => {}
+    }
+    let mut allowed: Option<String> = match c.allowed % 7 {
+        a @ 1..=3 => Some(p.ee_pem[a as usize - 1].clone()),
+        4 => Some(p.fixture_allowed.clone()),
+        5 => Some(p.ee_pem.concat()),
+        6 => Some(format!("{}\n", p.ee0_hash)),
+        _ => None,
+    };
+    if !leaked.is_empty() {
+        // self-test: emulate certificates remembered from earlier contexts of the thread
+        let mut all: Vec<u8> = c.members();
+        all.extend_from_slice(leaked);
+        all.sort();
+        all.dedup();
+        let mut txt: String = all.iter().map(|i| p.ee_pem[*i as usize].clone()).collect();
+        if c.allowed % 7 == 4 {
+            txt.push_str(&p.fixture_allowed);
+        }
+        allowed = Some(txt);
+    }
+    if let Some(a) = allowed {
+        trust.insert("allowed_list".into(), json!(a));
+    }
+    if !trust.is_empty() {
+        st["trust"] = Value::Object(trust);
+    }
+    st
+}
+
+fn signed_outcome(r: Result<c2pa::Result<(String, Vec<u8>)>, String>) -> Outcome {
+    match r {
+        Err(pm) => Outcome::Panic(vh::core::panic_site(&pm)),
+        Ok(Err(e)) => Outcome::Err(err_kind(&e)),
+        // the read-back that observes a signing result runs on its own fresh thread with a fixed context
+        Ok(Ok((fmt, b))) => fresh(|| read_cross(&fmt, &b)).unwrap_or_else(|e| Outcome::Panic(format!("observer: {e}"))),
+    }
+}
+
+fn exec_top(p: &Pool, op: &TOp, leaked: &[u8]) -> Outcome {
+    let settings = trust_settings(p, op.ctx(), leaked);
+    match op {
+        TOp::Read { asset, .. } => {
+            let a = &p.assets[*asset as usize % p.assets.len()];
+            read_outcome(&settings, &a.0, &a.1)
+        }
+        TOp::Ingredient { asset, rel, .. } => {
+            let a = &p.assets[*asset as usize % p.assets.len()];
+            let (relationship, intent) = match rel % 2 {
+                0 => ("componentOf", BuilderIntent::Create(DigitalSourceType::Empty)),
+                _ => ("parentOf", BuilderIntent::Edit),
+            };
+            let (fmt, bytes) = source(&Src { kind: 1, inst: 0, two_mdat: false });
+            let signer = sdk::signer("es384");
+            signed_outcome(vh::catch(|| {
+                let mut b = Builder::from_context(sdk::context_with(&settings)).with_definition(sdk::simple_definition("c38 history ingredient").to_string())?;
+                b.set_intent(intent);
+                b.add_ingredient_from_stream(json!({"title": "ing", "relationship": relationship}).to_string(), &a.0, &mut Cursor::new(a.1.clone()))?;
+                let mut out = Cursor::new(Vec::new());
+                b.sign(signer.as_ref(), &fmt, &mut Cursor::new(bytes), &mut out)?;
+                Ok((fmt.clone(), out.into_inner()))
+            }))
+        }
+        TOp::Sign { alg, .. } => {
+            let (fmt, bytes) = source(&Src { kind: 0, inst: 1, two_mdat: false });
+            let signer = sdk::signer(POOL_ALGS[*alg as usize % 3]);
+            signed_outcome(vh::catch(|| {
+                sdk::sign_with(sdk::context_with(&settings), &sdk::simple_definition("c38 history sign"), Some(BuilderIntent::Create(DigitalSourceType::Empty)), signer.as_ref(), &fmt, &bytes)
+                    .map(|b| (fmt.clone(), b))
+            }))
+        }
+    }
+}
+
+static TRUST_REFS: Mutex<Option<HashMap<String, Outcome>>> = Mutex::new(None);
+
+/// The operation executed alone on a fresh thread (memoised per distinct operation: it is a function of the operation).
+fn trust_reference(run: &Run, p: &Pool, op: &TOp) -> Outcome {
+    let key = serde_json::to_string(op).unwrap_or_default();
+    if let Some(o) = TRUST_REFS.lock().unwrap().get_or_insert_with(HashMap::new).get(&key) {
+        run.count("trust_reference:memoised");
+        return o.clone();
+    }
+    run.count("trust_reference:computed");
+    let o = fresh(|| exec_top(p, op, &[])).unwrap_or_else(|e| Outcome::Panic(format!("reference: {e}")));
+    TRUST_REFS.lock().unwrap().get_or_insert_with(HashMap::new).insert(key, o.clone());
+    o
+}
+
+/// index pairs (i, j), i < j: op i allows the certificate of the signer validated by op j, op j does not, same
+/// anchors / user anchors / trust config
+fn allowed_then_plain(ops: &[TOp]) -> Vec<(usize, usize)> {
+    let mut v = vec![];
+    for j in 0..ops.len() {
+        let Some(s) = ops[j].validated_signer() else { continue };
+        if ops[j].ctx().members().contains(&s) {
+            continue;
+        }
+        for i in 0..j {
+            if ops[i].ctx().members().contains(&s) && ops[i].ctx().key() == ops[j].ctx().key() {
+                v.push((i, j));
+                break;
+            }
+        }
+    }
+    v
+}
+
+fn judge_trust(run: &Run, case: &TrustCase, selftest: &str) -> CaseResult {
+    let p = match pool() {
+        Ok(p) => p,
+        Err(e) => {
+            run.inconclusive(format!("asset pool: {e}"));
+            return Ok(());
+        }
+    };
+    if case.ops.is_empty() {
+        return Ok(());
+    }
+    let emulate = selftest == "trust-leak";
+    // the whole history on ONE fresh thread
+    let hist = fresh(|| {
+        let mut out = vec![];
+        let mut last_key: Option<(u8, u8, u8)> = None;
+        let mut remembered: Vec<u8> = vec![];
+        for op in &case.ops {
+            let mut leaked: Vec<u8> = vec![];
+            if emulate {
+                if last_key == Some(op.ctx().key()) {
+                    leaked = remembered.clone();
+                } else {
+                    remembered.clear();
+                }
+                last_key = Some(op.ctx().key());
+                remembered.extend(op.ctx().members());
+            }
+            out.push(exec_top(p, op, &leaked));
+        }
+        out
+    });
+    let hist = match hist {
+        Ok(h) => h,
+        Err(e) => {
+            run.inconclusive(format!("history thread: {e}"));
+            return Ok(());
+        }
+    };
+    let pairs = allowed_then_plain(&case.ops);
+    let mut differing_ctx = false;
+    for (i, op) in case.ops.iter().enumerate() {
+        run.count(&format!("trust_op:{}:{}", op.kind(), hist[i].state()));
+        if i > 0 && op.ctx() != case.ops[i - 1].ctx() {
+            differing_ctx = true;
+        }
+        let reference = trust_reference(run, p, op);
+        if hist[i] != reference {
+            let cause = if pairs.iter().any(|(_, j)| *j == i) {
+                "allowed-list-of-earlier-context"
+            } else if i == 0 {
+                "first-operation"
+            } else {
+                "earlier-operations"
+            };
+            return Err(Fail::new(
+                format!("C38:history-op-differs-from-fresh-thread:{}:{cause}", op.kind()),
+                format!("operation {} of {} on one thread ({op:?}) vs the same operation alone on a fresh thread: {}; earlier operations on the thread: {:?}", i + 1, case.ops.len(), diff(&hist[i], &reference), &case.ops[..i]),
+            ));
+        }
+    }
+    run.count(&format!("trust_history:ops={}", case.ops.len()));
+    if !pairs.is_empty() {
+        run.count("history_allowed_list_then_plain");
+        if pairs.iter().any(|(_, j)| case.ops[*j].ctx().key() == (0, 0, 0)) {
+            run.count("history_allowed_list_then_plain:no_anchors_at_all");
+        }
+        // the pairs where the leak would change the verdict: the plain operation alone is not Trusted
+        if pairs.iter().any(|(_, j)| matches!(&hist[*j], Outcome::Ok { verdict, .. } if verdict.state != "Trusted") && matches!(case.ops[*j], TOp::Read { .. })) {
+            run.count("history_allowed_list_then_plain:plain_read_not_trusted");
+        }
+        for (_, j) in &pairs {
+            run.count(&format!("history_allowed_list_then_plain:second_op={}", case.ops[*j].kind()));
+        }
+        // decisive: the second operation reports the credential as untrusted (read: its own verdict; ingredient: the
+        // validation status recorded for the ingredient) - a remembered allowed list would change exactly this
+        if pairs.iter().any(|(_, j)| !matches!(case.ops[*j], TOp::Sign { .. }) && serde_json::to_string(&hist[*j]).unwrap_or_default().contains("signingCredential.untrusted")) {
+            run.count("history_allowed_list_then_plain:second_op_reports_untrusted");
+        }
+    }
+    let keys: std::collections::BTreeSet<(u8, u8, u8)> = case.ops.iter().map(|o| o.ctx().key()).collect();
+    run.count(if keys.len() == 1 { "trust_history:one_anchor_configuration" } else { "trust_history:several_anchor_configurations" });
+    if case.ops.iter().any(|o| o.ctx().allowed % 7 == 4) {
+        run.count("trust_history:allowed_list_with_other_certificates");
+    }
+    if differing_ctx {
+        run.nontrivial(case);
+        run.count("trust_history:nontrivial");
+    }
+    Ok(())
+}
+
+fn trust_ctx_strategy() -> impl Strategy<Value = (u8, u8, u8)> {
+    (
+        prop_oneof![6 => Just(0u8), 2 => Just(1u8), 2 => Just(2u8)],
+        prop_oneof![8 => Just(0u8), 1 => Just(1u8), 1 => Just(2u8)],
+        prop_oneof![6 => Just(0u8), 3 => Just(1u8), 1 => Just(2u8)],
+    )
+}
+
+fn trust_case_strategy() -> impl Strategy<Value = TrustCase> {
+    // 255 = "the focus signer of this history": allowed lists and validated assets meet often enough
+    let op = (
+        prop_oneof![6 => Just(0u8), 2 => Just(1u8), 1 => Just(2u8)],
+        prop_oneof![3 => Just(255u8), 2 => 0u8..4],
+        prop_oneof![4 => Just(true), 1 => Just(false)],
+        trust_ctx_strategy(),
+        prop_oneof![5 => Just(0u8), 4 => Just(255u8), 1 => Just(1u8), 1 => Just(2u8), 1 => Just(3u8), 1 => Just(4u8), 1 => Just(5u8), 1 => Just(6u8)],
+        0u8..2,
+    );
+    (trust_ctx_strategy(), 0u8..3, proptest::collection::vec(op, 2..=5)).prop_map(|(base, focus, ops)| TrustCase {
+        ops: ops
+            .into_iter()
+            .map(|(kind, asset, keep_base, own, allowed, rel)| {
+                let (anchors, user, config) = if keep_base { base } else { own };
+                let asset = if asset == 255 { focus } else { asset };
+                let allowed = if allowed == 255 { focus + 1 } else { allowed };
+                let ctx = TrustCtx { anchors, user, config, allowed };
+                match kind {
+                    0 => TOp::Read { asset, ctx },
+                    1 => TOp::Ingredient { asset, ctx, rel },
+                    _ => TOp::Sign { alg: asset % 3, ctx },
+                }
+            })
+            .collect(),
+    })
+}
+
+// ---------------------------------------------------------------- stream B: legacy thread-local settings loads
+
+const GOOD_LOADS: u8 = 7;
+const BAD_WAYS: u8 = 10;
+const RIDER_BITS: u8 = 5;
+const BAD_WAY_NAMES: [&str; BAD_WAYS as usize] = [
+    "allowed_list-not-pem",
+    "bool-given-as-string",
+    "max-decompressed-size-too-large",
+    "version-too-new",
+    "user_anchors-not-pem",
+    "syntax-error",
+    "unsupported-format",
+    "auto-created-action-without-source-type",
+    "cawg-anchors-not-pem",
+    "allowed_list-given-as-integer",
+];
+
+#[derive(Clone, Debug, Serialize, Deserialize, PartialEq, Eq, Hash)]
+enum LOp {
+    /// valid configuration, `Settings::from_toml` (toml) / `Settings::from_string(.., "json")`
+    Good { which: u8, json: bool },
+    /// configuration that is rejected, combined with harmless keys (`riders` bit mask) that would be visible if merged
+    Bad { way: u8, riders: u8, json: bool },
+    /// deprecated `Reader::from_stream` of a pool asset
+    Read { asset: u8 },
+    /// deprecated `Builder::from_json` + sign
+    Sign { alg: u8, def: u8 },
+}
+
+#[derive(Clone, Debug, Serialize, Deserialize, PartialEq, Eq, Hash)]
+struct LegacyCase {
+    ops: Vec<LOp>,
+}
+
+fn good_value(p: &Pool, which: u8) -> Value {
+    match which % GOOD_LOADS {
+        0 => json!({"trust": {"trust_anchors": p.anchors_full}}),
+        1 => json!({"verify": {"verify_after_reading": false}}),
+        2 => json!({"builder": {"claim_generator_info": {"name": "tl-good-generator", "version": "1"}}}),
+        3 => json!({"core": {"merkle_tree_chunk_size_in_kb": 1, "prefer_compress_manifests": true}}),
+        4 => json!({"trust": {"allowed_list": p.ee_pem[0]}}),
+        5 => json!({"verify": {"verify_trust": false, "verify_after_sign": false}}),
+        _ => json!({"builder": {"vendor": "goodvendor", "thumbnail": {"enabled": false}}}),
+    }
+}
+
+fn riders_value(p: &Pool, riders: u8) -> Value {
+    let mut v = json!({});
+    if riders & 1 != 0 {
+        sdk::merge(&mut v, &json!({"verify": {"verify_after_reading": false}}));
+    }
+    if riders & 2 != 0 {
+        sdk::merge(&mut v, &json!({"builder": {"claim_generator_info": {"name": "leaked-generator", "version": "6.6"}}}));
+    }
+    if riders & 4 != 0 {
+        sdk::merge(&mut v, &json!({"verify": {"verify_trust": false}}));
+    }
+    if riders & 8 != 0 {
+        sdk::merge(&mut v, &json!({"trust": {"trust_anchors": p.anchors_full}}));
+    }
+    if riders & 16 != 0 {
+        sdk::merge(&mut v, &json!({"builder": {"vendor": "leakedvendor"}}));
+    }
+    v
+}
+
+fn render(v: &Value, json: bool) -> (String, &'static str) {
+    if !json {
+        if let Ok(t) = toml::to_string(v) {
+            return (t, "toml");
+        }
+    }
+    (v.to_string(), "json")
+}
+
+/// (text, format) of a configuration that `Settings::from_string` rejects.
+fn bad_text(p: &Pool, way: u8, riders: u8, json: bool) -> (String, &'static str) {
+    let mut v = riders_value(p, riders);
+    match way % BAD_WAYS {
+        0 => sdk::merge(&mut v, &json!({"trust": {"allowed_list": "this is !! not a PEM bundle ##"}})),
+        1 => sdk::merge(&mut v, &json!({"verify": {"strict_v1_validation": "maybe"}})),
+        2 => sdk::merge(&mut v, &json!({"core": {"max_decompressed_manifest_size_in_mb": 99999999}})),
+        3 => {
+            // scalar first: TOML needs top-level values before tables
+            let mut w = json!({"version": 99});
+            sdk::merge(&mut w, &v);
+            v = w;
+        }
+        4 => sdk::merge(&mut v, &json!({"trust": {"user_anchors": "-----BEGIN CERTIFICATE-----\n%%%%\n-----END CERTIFICATE-----\n"}})),
+        5 => {
+            let (t, f) = render(&v, json);
+            return (if f == "toml" { format!("{t}\nnot [valid toml\n") } else { format!("{t} trailing {{") }, f);
+        }
+        6 => return (render(&v, json).0, "yaml"),
+        7 => sdk::merge(&mut v, &json!({"builder": {"actions": {"auto_created_action": {"enabled": true}}}})),
+        8 => sdk::merge(&mut v, &json!({"cawg_trust": {"trust_anchors": "no certificates here !!"}})),
+        _ => sdk::merge(&mut v, &json!({"trust": {"allowed_list": 42}})),
+    }
+    render(&v, json)
+}
+
+#[allow(deprecated)]
+fn tl_load(text: &str, fmt: &str) -> Result<(), String> {
+    let r = if fmt == "toml" { vh::catch(|| Settings::from_toml(text)) } else { vh::catch(|| Settings::from_string(text, fmt).map(|_| ())) };
+    match r {
+        Ok(Ok(())) => Ok(()),
+        Ok(Err(e)) => Err(err_kind(&e)),
+        Err(p) => Err(format!("panic:{}", vh::core::panic_site(&p))),
+    }
+}
+
+/// Text of the thread's settings (the public accessor of the thread-local configuration).
+#[allow(deprecated)]
+fn tl_text() -> String {
+    match vh::catch(Settings::to_toml) {
+        Ok(Ok(t)) => t,
+        Ok(Err(e)) => format!("to_toml error: {}", err_kind(&e)),
+        Err(p) => format!("to_toml panic: {}", vh::core::panic_site(&p)),
+    }
+}
+
+fn first_line_diff(a: &str, b: &str) -> String {
+    let (la, lb): (Vec<&str>, Vec<&str>) = (a.lines().collect(), b.lines().collect());
+    for i in 0..la.len().max(lb.len()) {
+        let (x, y) = (la.get(i).copied().unwrap_or("<end>"), lb.get(i).copied().unwrap_or("<end>"));
+        if x != y {
+            let cut = |s: &str| s.chars().take(90).collect::<String>();
+            return format!("line {}: {:?} vs {:?}", i + 1, cut(x), cut(y));
+        }
+    }
+    "equal".into()
+}
+
+#[derive(Clone, Debug, PartialEq)]
+enum LStep {
+    /// result of a load that is expected to succeed
+    Load(Result<(), String>),
+    /// a rejected load (left out of the reference run)
+    Rejected,
+    Op(Outcome),
+}
+
+#[derive(Clone, Debug, PartialEq)]
+struct LRun {
+    steps: Vec<LStep>,
+    /// a valid load at the end of every history
+    final_load: Result<(), String>,
+    final_text: String,
+}
+
+/// One legacy history on the current (fresh) thread. `attempt_bad == false` is the reference run: the thread never
+/// sees the rejected configurations.
+#[allow(deprecated)]
+fn exec_legacy(run: &Run, p: &Pool, case: &LegacyCase, attempt_bad: bool, selftest: &str) -> Result<LRun, Fail> {
+    let mut steps = vec![];
+    let mut failed_before = false;
+    for (i, op) in case.ops.iter().enumerate() {
+        match op {
+            LOp::Good { which, json } => {
+                let (t, f) = render(&good_value(p, *which), *json);
+                let mut r = tl_load(&t, f);
+                if selftest == "legacy-refuse" && attempt_bad && failed_before {
+                    r = Err("selftest: refused".into());
+                }
+                steps.push(LStep::Load(r));
+            }
+            LOp::Bad { way, riders, json } => {
+                if !attempt_bad {
+                    steps.push(LStep::Rejected);
+                    continue;
+                }
+                let (t, f) = bad_text(p, *way, *riders, *json);
+                let before = tl_text();
+                let r = tl_load(&t, f);
+                if selftest.starts_with("legacy-leak") && r.is_err() {
+                    // self-test: emulate "the rejected configuration stays merged" with its harmless part
+                    let _ = tl_load(&riders_value(p, *riders).to_string(), "json");
+                }
+                let after = tl_text();
+                let name = BAD_WAY_NAMES[(*way % BAD_WAYS) as usize];
+                match r {
+                    Ok(()) => {
+                        return Err(Fail::new(
+                            format!("C38:legacy-load-rejected-alone-accepted-in-history:{name}"),
+                            format!("op {} {op:?}: this configuration is rejected on a pristine thread but was accepted after {:?}", i + 1, &case.ops[..i]),
+                        ));
+                    }
+                    Err(e) => run.count(&format!("legacy_failed_load:{name}:{e}")),
+                }
+                if before != after && selftest != "legacy-leak-no-text" {
+                    return Err(Fail::new(
+                        format!("C38:legacy-failed-load-changed-thread-settings:{name}"),
+                        format!("op {} {op:?} returned Err but Settings::to_toml() of the thread differs from the text before the load: {}; earlier ops {:?}", i + 1, first_line_diff(&before, &after), &case.ops[..i]),
+                    ));
+                }
+                failed_before = true;
+                steps.push(LStep::Rejected);
+            }
+            LOp::Read { asset } => {
+                let a = &p.assets[*asset as usize % p.assets.len()];
+                steps.push(LStep::Op(outcome_of(vh::catch(|| Reader::from_stream(&a.0, Cursor::new(a.1.clone()))), false)));
+            }
+            LOp::Sign { alg, def } => {
+                let (fmt, bytes) = source(&Src { kind: 0, inst: 2, two_mdat: false });
+                let (d, intent) = definition(*def, "c38 legacy history sign");
+                let signer = sdk::signer(POOL_ALGS[*alg as usize % 3]);
+                steps.push(LStep::Op(signed_outcome(vh::catch(|| {
+                    let mut b = Builder::from_json(&d.to_string())?;
+                    if let Some(i) = intent {
+                        b.set_intent(i);
+                    }
+                    let mut out = Cursor::new(Vec::new());
+                    b.sign(signer.as_ref(), &fmt, &mut Cursor::new(bytes), &mut out)?;
+                    Ok((fmt.clone(), out.into_inner()))
+                }))));
+            }
+        }
+    }
+    let mut final_load = tl_load("[verify]\nocsp_fetch = false\n", "toml");
+    if selftest == "legacy-refuse" && attempt_bad && failed_before {
+        final_load = Err("selftest: refused".into());
+    }
+    Ok(LRun { steps, final_load, final_text: tl_text() })
+}
+
+fn judge_legacy(run: &Run, case: &LegacyCase, selftest: &str) -> CaseResult {
+    let p = match pool() {
+        Ok(p) => p,
+        Err(e) => {
+            run.inconclusive(format!("asset pool: {e}"));
+            return Ok(());
+        }
+    };
+    let n_bad = case.ops.iter().filter(|o| matches!(o, LOp::Bad { .. })).count();
+    let hist = match fresh(|| exec_legacy(run, p, case, true, selftest)) {
+        Ok(r) => r?,
+        Err(e) => {
+            run.inconclusive(format!("legacy history thread: {e}"));
+            return Ok(());
+        }
+    };
+    for (op, st) in case.ops.iter().zip(&hist.steps) {
+        match (op, st) {
+            (LOp::Read { .. }, LStep::Op(o)) => run.count(&format!("legacy_history_read:{}", o.state())),
+            (LOp::Sign { .. }, LStep::Op(o)) => run.count(&format!("legacy_history_sign:{}", o.state())),
+            (LOp::Good { which, .. }, LStep::Load(r)) => run.count(&format!("legacy_good_load:{}:{}", which % GOOD_LOADS, if r.is_ok() { "ok" } else { "err" })),
+            _ => {}
+        }
+    }
+    run.count(&format!("legacy_history:failed_loads={n_bad}"));
+    if n_bad == 0 {
+        return Ok(());
+    }
+    run.count("history_failed_legacy_load");
+    // reference: a thread that never attempted the rejected loads (same successful loads, same operations)
+    let reference = match fresh(|| exec_legacy(run, p, case, false, "")) {
+        Ok(r) => r?,
+        Err(e) => {
+            run.inconclusive(format!("legacy reference thread: {e}"));
+            return Ok(());
+        }
+    };
+    let mut seen_bad = false;
+    let mut followers = 0;
+    for (i, (a, b)) in hist.steps.iter().zip(&reference.steps).enumerate() {
+        let op = &case.ops[i];
+        if matches!(op, LOp::Bad { .. }) {
+            seen_bad = true;
+            continue;
+        }
+        if seen_bad {
+            followers += 1;
+        }
+        if a != b {
+            let (sig, what) = match (a, b) {
+                (LStep::Load(x), LStep::Load(y)) => ("valid-load-result-differs".to_string(), format!("{x:?} vs {y:?}")),
+                (LStep::Op(x), LStep::Op(y)) => (format!("{}-differs", if matches!(op, LOp::Read { .. }) { "legacy-read" } else { "legacy-sign" }), diff(x, y)),
+                _ => ("step-kind-differs".to_string(), format!("{a:?} vs {b:?}")),
+            };
+            return Err(Fail::new(
+                format!("C38:legacy-after-failed-load:{sig}"),
+                format!("op {} {op:?} on a thread that attempted the rejected loads vs a thread that never did: {what}; history {:?}", i + 1, case.ops),
+            ));
+        }
+    }
+    if hist.final_load != reference.final_load {
+        return Err(Fail::new(
+            "C38:legacy-after-failed-load:valid-load-result-differs",
+            format!("closing valid load: {:?} vs {:?} on a thread that never attempted the rejected loads; history {:?}", hist.final_load, reference.final_load, case.ops),
+        ));
+    }
+    if hist.final_load.is_err() {
+        return Err(Fail::new("C38:legacy-valid-load-refused", format!("closing valid load refused on both threads: {:?}; history {:?}", hist.final_load, case.ops)));
+    }
+    if hist.final_text != reference.final_text && selftest != "legacy-leak-no-text" {
+        return Err(Fail::new(
+            "C38:legacy-after-failed-load:final-thread-settings-differ",
+            format!("Settings::to_toml() at the end: {}; history {:?}", first_line_diff(&hist.final_text, &reference.final_text), case.ops),
+        ));
+    }
+    if followers > 0 {
+        run.nontrivial(case);
+        run.count("legacy_history:failed_load_followed_by_ops");
+    }
+    if case.ops.iter().any(|o| matches!(o, LOp::Bad { riders, .. } if riders % (1 << RIDER_BITS) != 0)) {
+        run.count("legacy_history:failed_load_with_observable_riders");
+    }
+    if case.ops.iter().any(|o| matches!(o, LOp::Good { .. })) {
+        run.count("legacy_history:mixes_successful_and_failed_loads");
+    }
+    Ok(())
+}
+
+fn legacy_case_strategy() -> impl Strategy<Value = LegacyCase> {
+    let op = prop_oneof![
+        3 => (0u8..GOOD_LOADS, any::<bool>()).prop_map(|(which, json)| LOp::Good { which, json }),
+        5 => (0u8..BAD_WAYS, 0u8..(1 << RIDER_BITS), any::<bool>()).prop_map(|(way, riders, json)| LOp::Bad { way, riders, json }),
+        4 => (0u8..4).prop_map(|asset| LOp::Read { asset }),
+        2 => (0u8..3, 0u8..3).prop_map(|(alg, def)| LOp::Sign { alg, def }),
+    ];
+    proptest::collection::vec(op, 2..=6).prop_map(|ops| LegacyCase { ops })
+}
+
+/// The expectation table itself, on pristine threads: every "bad" configuration is rejected, every "good" one accepted.
+fn legacy_table_check(run: &Run) {
+    let p = match pool() {
+        Ok(p) => p,
+        Err(e) => {
+            run.inconclusive(format!("asset pool: {e}"));
+            return;
+        }
+    };
+    for json in [false, true] {
+        for way in 0..BAD_WAYS {
+            for riders in [0u8, (1 << RIDER_BITS) - 1] {
+                let (t, f) = bad_text(p, way, riders, json);
+                match fresh(|| tl_load(&t, f)) {
+                    Ok(Err(_)) => run.count("legacy_table:bad_rejected"),
+                    other => run.inconclusive(format!("harness table: configuration {} (riders {riders}, json {json}) is not rejected on a pristine thread: {other:?}", BAD_WAY_NAMES[way as usize])),
+                }
+            }
+        }
+        for which in 0..GOOD_LOADS {
+            let (t, f) = render(&good_value(p, which), json);
+            match fresh(|| tl_load(&t, f)) {
+                Ok(Ok(())) => run.count("legacy_table:good_accepted"),
+                other => run.inconclusive(format!("harness table: good configuration {which} (json {json}) is not accepted on a pristine thread: {other:?}")),
+            }
+        }
+        for riders in 0..(1u8 << RIDER_BITS) {
+            let (t, f) = render(&riders_value(p, riders), json);
+            if !matches!(fresh(|| tl_load(&t, f)), Ok(Ok(()))) {
+                run.inconclusive(format!("harness table: riders {riders} alone (json {json}) are not a valid configuration"));
+            }
+        }
+    }
+}
+
 /// The sequence runs on a fresh thread: thread-local settings start pristine for every case (and for replays).
 fn on_fresh_thread(run: &Run, case: &Case, selftest: &str) -> CaseResult {
     std::thread::scope(|s| {
@@ -1159,5 +1947,16 @@ fn main() {
     let threads = run.scale(6, 16);
     run.drive_par("sequences", n, threads, case_strategy(), |case| on_fresh_thread(&run, case, &selftest));
     run.note("fresh-process reads: one child per (kept asset, settings); multi-mdat Merkle assets: 24 in-process + 2 x 12 child reads");
+
+    // per-thread histories: every operation compared with the same operation on a pristine thread
+    run.assume("histories: a freshly spawned std::thread is a pristine context for per-thread state; the reference of a trust-history operation is memoised per distinct operation (it is a function of the operation)");
+    run.assume("legacy histories: the configurations of the 'rejected' table are rejected and those of the 'accepted' table accepted on a pristine thread (checked at start-up; a mismatch makes the run inconclusive)");
+    legacy_table_check(&run);
+    let n = run.scale(300, 8000);
+    run.drive_par("trust_histories", n, threads, trust_case_strategy(), |case| judge_trust(&run, case, &selftest));
+    let n = run.scale(200, 6000);
+    run.drive_par("legacy_histories", n, threads, legacy_case_strategy(), |case| judge_legacy(&run, case, &selftest));
+    run.note("trust_histories: 2-5 operations (context read / add ingredient + sign / sign) on one fresh thread, per-operation trust settings (anchors, user anchors, trust config, allowed list); each result compared with the same operation alone on a fresh thread");
+    run.note("legacy_histories: 2-6 operations (accepted / rejected Settings::from_toml | from_string, Reader::from_stream, Builder::from_json + sign) on one fresh thread vs a thread that never attempted the rejected loads; Settings::to_toml() unchanged by a rejected load");
     run.finish();
 }
